@@ -19,6 +19,7 @@ import SharkVerif.Lemmas.ImportCsv
 import SharkVerif.Lemmas.ImportRt
 import SharkVerif.Lemmas.ExportFmt
 import SharkVerif.Lemmas.ExportSvm
+import SharkVerif.Lemmas.ExportCsv
 import SharkVerif.Model.ImportCsv
 import SharkVerif.Model.ExportFmt
 namespace SharkVerif.C19
@@ -1280,6 +1281,83 @@ open SharkVerif.Import.Export in
 /-- non-vacuity: 2/3 to 4 significant digits is 6667 · 10^-4 (rounded up), 1999.96 to 4 digits carries to 2.000e+03 -/
 example : sciDigits 3 2 3 = (6667, -1) ∧ decExp 2 3 = -1 ∧ sciDigits 3 199996 100 = (2000, 3) ∧
     sciDigits 2 9996 1 = (100, 4) ∧ decExp 9996 1 = 3 := by decide
+
+/-! ## `exportCSV` → `csvStringToData` from bytes -/
+
+open SharkVerif.Import.Export in
+/-- **C19, second sentence, `exportCSV` → `csvStringToData` FROM BYTES (unlabelled data and vector labels).**  For every
+non-empty dataset of binary64 values with `d ≥ 1` inputs (and `dOut` outputs), every separator / comment character
+admitted by `SepOk` (the separator is not white space, NUL, a character of a number, `E`, `i`/`I` or `(`; the
+comment character is not a character of a number or the line feed), scientific format on or off, field width 0,
+label position first or last and every maximum batch size (0 = unlimited): the exporter writes some bytes, and
+importing these bytes returns the dataset with the same number of elements, the same dimensions and batch partition
+as a direct construction, whose values are `reimportCsv sci v` — spirit's reading of `v` rounded to 11 significant
+digits (`value_bytes_roundtrip_sci` / `_general`, `printed_decimal_is_nearest`); no printed value is rejected. -/
+theorem csv_export_import_bytes {sep comment : Char} (hs : SepOk sep comment) (sci : Bool) (maxB : Nat) :
+    (∀ (rows : List (List Val)) (d : Nat), rows ≠ [] → 0 < d →
+      (∀ r ∈ rows, r.length = d ∧ ∀ v ∈ r, isDouble v = true) →
+      ∃ bytes, csvRows rows sep sci 0 = some bytes ∧
+        Csv.importRowsBytes bytes sep comment maxB =
+          .ok { shape := some d, lshape := none, batches := optimalBatchSizes rows.length maxB,
+                rows := rows.map (fun r => Row.dense (r.map (reimportCsv sci))), labels := .none }) ∧
+    (∀ (pts : List (List Val × List Val)) (labelFirst : Bool) (dIn dOut : Nat), pts ≠ [] → 0 < dIn →
+      (∀ p ∈ pts, p.1.length = dIn ∧ p.2.length = dOut ∧ (∀ v ∈ p.1, isDouble v = true) ∧ ∀ v ∈ p.2, isDouble v = true) →
+      ∃ bytes, csvRegr pts labelFirst sep sci 0 = some bytes ∧
+        Csv.importRegrBytes bytes labelFirst dOut sep comment maxB =
+          .ok { shape := some dIn, lshape := some dOut, batches := optimalBatchSizes pts.length maxB,
+                rows := pts.map (fun p => Row.dense (p.1.map (reimportCsv sci))),
+                labels := .reg (pts.map fun p => p.2.map (reimportCsv sci)) }) := by
+  constructor
+  · intro rows d hne hd hrow
+    obtain ⟨bytes, hb, hread⟩ := readRows_csvRows hs sci rows hne (fun r hr => by
+      refine ⟨?_, (hrow r hr).2⟩
+      intro h; have := (hrow r hr).1; rw [h] at this; simp at this; omega)
+    refine ⟨bytes, hb, ?_⟩
+    unfold Csv.importRowsBytes
+    rw [hread]
+    simp only
+    obtain ⟨r0, rest, rfl⟩ : ∃ r0 rest, rows = r0 :: rest := by
+      cases rows with
+      | nil => exact absurd rfl hne
+      | cons a t => exact ⟨a, t, rfl⟩
+    have hall : (((r0 :: rest).map fun r => r.map (reimportCsv sci)).all fun r => r.length == (r0.map (reimportCsv sci)).length) = true := by
+      rw [List.all_eq_true]
+      intro r hr
+      obtain ⟨r', hr', rfl⟩ := List.mem_map.mp hr
+      simp [(hrow r' hr').1, (hrow r0 (by simp)).1]
+    simp only [List.map_cons, Csv.importRows] at hall ⊢
+    rw [if_pos hall]
+    simp [(hrow r0 (by simp)).1, List.map_map, Function.comp_def]
+  · intro pts labelFirst dIn dOut hne hd hpt
+    obtain ⟨bytes, hb, hread⟩ := readRows_csvRegr hs sci labelFirst pts hne (fun p hp => by
+      refine ⟨?_, (hpt p hp).2.2.1, (hpt p hp).2.2.2⟩
+      intro h; have := (hpt p hp).1; rw [h] at this; simp at this; omega)
+    refine ⟨bytes, hb, ?_⟩
+    unfold Csv.importRegrBytes
+    rw [hread]
+    simp only
+    have h := csv_roundtrip_regression (pts.map fun p => (p.1.map (reimportCsv sci), p.2.map (reimportCsv sci))) labelFirst dIn dOut maxB
+      (by intro p' hp'; obtain ⟨p, hp, rfl⟩ := List.mem_map.mp hp'; simp [(hpt p hp).1])
+      (by intro p' hp'; obtain ⟨p, hp, rfl⟩ := List.mem_map.mp hp'; simp [(hpt p hp).2.1])
+      hd (by simpa using hne)
+    simp only [List.map_map, Function.comp_def, List.length_map] at h ⊢
+    exact h
+
+open SharkVerif.Import.Export in
+/-- non-vacuity: the separator / comment pairs of the generated stream satisfy `SepOk`; blanks, NUL, characters of a
+number, `E`, `I`, `(` do not -/
+example : SepOk ',' '#' ∧ SepOk ';' '%' ∧ SepOk '|' '!' ∧ SepOk ':' '#' ∧ SepOk '@' ';' := by
+  refine ⟨⟨?_, ?_, ?_, ?_, ?_, ?_, ?_, ?_, ?_⟩, ⟨?_, ?_, ?_, ?_, ?_, ?_, ?_, ?_, ?_⟩, ⟨?_, ?_, ?_, ?_, ?_, ?_, ?_, ?_, ?_⟩,
+    ⟨?_, ?_, ?_, ?_, ?_, ?_, ?_, ?_, ?_⟩, ⟨?_, ?_, ?_, ?_, ?_, ?_, ?_, ?_, ?_⟩⟩ <;> decide
+
+open SharkVerif.Import.Export in
+/-- non-vacuity: `(2.5, -1)`, `(0.1, -inf)` written with `;` in scientific format and imported again, one batch -/
+example : csvRows [[Val.fin false 5 (-1), Val.fin true 1 0], [Val.fin false 3602879701896397 (-55), Val.inf true]] ';' true 0
+      = some "2.5000000000e+00;-1.0000000000e+00\n1.0000000000e-01;-inf\n".toList ∧
+    Csv.importRowsBytes "2.5000000000e+00;-1.0000000000e+00\n1.0000000000e-01;-inf\n".toList ';' '#' 0
+      = .ok { shape := some 2, lshape := none, batches := [2],
+              rows := [.dense [Val.fin false 5 (-1), Val.fin true 1 0],
+                       .dense [Val.fin false 3602879701896397 (-55), Val.inf true]], labels := .none } := by decide
 
 /-! ## the hand-written LAST_COLUMN record loop terminates; the grammars as written in `Csv.cpp` -/
 
